@@ -60,6 +60,20 @@ CHECKS["C06"] = {
     "design": "DESIGN.md 5 C06",
 }
 
+_LIFE_NOTE = "Trusted: Coq kernel + vm_compute; hand-written Model/Life.v tied by differential execution at every macro step from the observed pre-state; player counts and 'hand reached settlement' as observed oracle values; GameContinueInterval = 0 (schedules inside the continue delay are not explored - a limitation named in DESIGN.md 9); three genuine defects found by these checks were repaired (F11 open after close/release, F12 gate set up with survivors only, F14 blind level read twice)."
+CHECKS["C07"] = {
+    "text": "Life-cycle model at the grain of macro steps between quiescent points. Theorems (every state, oracle value and operation): the hand count moves only by +1 and only when the gate's completion opens a hand, which requires no unsettled hand, table neither closed nor released, blinds set and no break; left to itself the status moves only along the cycle; a settled hand leaves no hand state. The fine grain (every notification between quiescent points: status edges, +1 counting on `opened` only, no open while a hand is unsettled, per-hand fields reset, fresh game ids) is decided on every run by the decidable C07_step_ok on the implementation's notification stream; the model is compared with the implementation after every macro step of ~150 driven histories (pause / close / release / blind updates / break and unset levels / real 2 s gate timeouts / late gate completions after close).",
+    "note": _LIFE_NOTE, "technique": "Rocq case-analysis proofs on the life-cycle model + decidable monitor on the notification stream + macro-step differential correspondence", "design": "DESIGN.md 5 C07",
+}
+CHECKS["C08"] = {
+    "text": "Theorems on the life-cycle model: after a settled hand the table pauses iff the level is a break or fewer players than the minimum have chips; otherwise the gate is set up for the next count with every seated-in player with chips; and once they have signalled (or the gate timed out) the next hand opens without any further call, provided two seated-in players have chips (two-step theorem LPlay;LFinish). Decided on the implementation by C08_step_ok on every macro step (pause decision, gate not left with <2 participants while two can play, hand really opens - wedges are detected by state, not by a sleep) and by model/implementation equality.",
+    "note": _LIFE_NOTE + " Rotation refusals with two live players (C04 findings F7/F8) would surface here as a wedge; the driven tables keep all players seated-in.", "technique": "Rocq proofs on the life-cycle model + state-based wedge detection + macro-step differential correspondence", "design": "DESIGN.md 5 C08",
+}
+CHECKS["C12"] = {
+    "text": "Theorems on the life-cycle model: a hand opens at the level in force at that moment; for ANY sequence of operations while the same hand runs - blind updates included - the hand's level is unchanged (updates affect only later hands); on a break no hand opens, the table pauses after the current hand, and a table created on a break starts paused. Decided on the implementation by C12_step_ok: GameBlindState, the options captured at CreateGame and the ante/blinds the hand charges all equal the level before the open - including when UpdateBlind is issued from INSIDE the backend's CreateGame (deterministic replay of the interleaving behind defect F14) - and stay fixed during the hand.",
+    "note": _LIFE_NOTE, "technique": "Rocq proofs (induction over operation sequences) on the life-cycle model + deterministic interleaving injection + macro-step differential correspondence", "design": "DESIGN.md 5 C12",
+}
+
 NOT_YET = "not built yet in this round (work in progress; the design claims it, see DESIGN.md 5)"
 
 
